@@ -36,8 +36,15 @@ var round2Explain = map[string]string{
 }
 
 func fullExplanation(p *Prop) string {
+	s := p.Explanation
 	if x, ok := round2Explain[p.ID]; ok {
-		return p.Explanation + " " + x
+		s += " " + x
 	}
-	return p.Explanation
+	if x, ok := round2ExplainMore[p.ID]; ok {
+		if _, had := round2Explain[p.ID]; !had {
+			s += " Added after round 2:"
+		}
+		s += " " + x
+	}
+	return s
 }
